@@ -210,6 +210,34 @@ def run(model, col, tier):
         for n in ast.walk(fi.tree):
             if isinstance(n, ast.Call) and dotted(n.func) in ("list", "tuple", "enumerate", "zip") and n.args and is_set_expr(n.args[0], attr_names, meth_names):
                 col.bad("R18.1", f"{rel}:: {dotted(n.func)}({unparse(n.args[0])[:40]})", f"`{unparse(n)[:60]}` fixes the hash-seed dependent order of a set in a sequence", rel, n)
+    # a set handed to a constructor / function of the repository that puts its parameter in order (`list(p)`, a loop over p, a
+    # join): the order of the set is fixed in whatever that object writes (one level of the call graph)
+    for rel, fi in sorted(model.files.items()):
+        if not rel.startswith("nsl/"):
+            continue
+        for n in ast.walk(fi.tree):
+            if not (isinstance(n, ast.Call) and any(is_set_expr(a, attr_names, meth_names) for a in n.args)):
+                continue
+            ci = model.resolve_class_expr(rel, n.func)
+            callee = None
+            off = 0
+            if ci is not None:
+                r_ = ci.find_method("__init__")
+                callee, off = (r_[1], 1) if r_ else (None, 0)
+            elif isinstance(n.func, ast.Name) and n.func.id in fi.functions:
+                callee = fi.functions[n.func.id]
+            if callee is None:
+                continue
+            for i, a in enumerate(n.args):
+                if not is_set_expr(a, attr_names, meth_names) or i + off >= len(callee.args.args):
+                    continue
+                p = callee.args.args[i + off].arg
+                ordered = [x for x in ast.walk(callee) if (isinstance(x, ast.Call) and dotted(x.func) in ("list", "tuple", "enumerate", "zip", "iter") and x.args and isinstance(x.args[0], ast.Name) and x.args[0].id == p)
+                           or (isinstance(x, ast.For) and isinstance(x.iter, ast.Name) and x.iter.id == p)
+                           or (isinstance(x, ast.Call) and last_attr(x) == "join" and x.args and isinstance(x.args[0], ast.Name) and x.args[0].id == p)]
+                if ordered:
+                    col.bad("R18.1", f"{rel}:: set `{unparse(a)[:40]}` handed to {unparse(n.func)[:40]}", f"`{' '.join(unparse(n).split())[:70]}` passes a set to `{p}`, which the callee puts in "
+                            f"order (`{' '.join(unparse(ordered[0]).split())[:50]}`): what is built or written from it follows the hash seed of the process", rel, n)
     # ---------------- R18.2 (i) fresh objects per compilation ----------------------
     cinit = pipe.cls.own_method("__init__")
     # (Pipeline resolved both lists to displays of GetPass() calls written in __init__, possibly through a local / list(..))
@@ -355,6 +383,23 @@ def run(model, col, tier):
             why.append(f"it is stored in a field that {where_} mutates in place, and {s} can be constructed without the argument")
         col.check(not why, "R18.2", key, "the shared default object is never mutated", "; ".join(why) + ": the object is created once per process, so state leaks from one compilation (or VM) into the next",
                   rel, (direct or [fn])[0] if not field_mut else field_mut[0][2])
+    # (iv) a default argument is evaluated once, when the module is imported: it must not read the state of the process at
+    # that moment (working directory, clock, environment, random numbers) - later compilations would be decided by it
+    AMBIENT = ("cwd", "getcwd", "now", "today", "time", "time_ns", "monotonic", "perf_counter", "getenv", "getpid", "random", "randint", "uuid4", "uuid1", "gettempdir", "mkdtemp", "urandom")
+    ndef = 0
+    for rel, fi in sorted(model.files.items()):
+        if not (rel.startswith("nsl/") or rel in ("nslc.py", "nslr.py")):
+            continue
+        for f in ast.walk(fi.tree):
+            if not isinstance(f, (ast.FunctionDef, ast.AsyncFunctionDef, ast.Lambda)):
+                continue
+            for d in list(f.args.defaults) + [k for k in f.args.kw_defaults if k is not None]:
+                ndef += 1
+                amb = [c for c in ast.walk(d) if (isinstance(c, ast.Call) and last_attr(c) in AMBIENT) or (isinstance(c, ast.Attribute) and c.attr == "environ")]
+                col.check(not amb, "R18.2", f"{rel}::{getattr(f, 'name', '<lambda>')} default `{unparse(d)[:40]}`", "the default does not read process state at import time",
+                          f"the default `{' '.join(unparse(d).split())[:60]}` is evaluated once, at import: it freezes the process state of that moment (e.g. the working directory before a "
+                          "later chdir), so a later compilation resolves names / behaves according to where an earlier one ran", rel, d) if amb else None
+    col.floor("R18.2", "default argument values scanned", ndef, 20)
     # ---------------- R18.3 ------------------------------------------------------
     from . import c17
     from ..report import Collector
